@@ -1,9 +1,10 @@
 (* polliwog/polyline/_slice_by_plane.py (slice_open_polyline_by_plane),
    polliwog/polyline/_polyline_object.py (Polyline.sliced_by_plane, the closed-polyline roll logic) and
    polliwog/plane/_plane_intersect.py (intersect_segment_with_plane, one segment).
-   Definitions only.  The closed-polyline part models the code WITH fixes/C06-closed-slice.diff applied
-   (ValueError when every vertex is in front; the loop is closed explicitly so that the run can leave through the
-   vertex it entered from).  `sliced_by_plane_unfixed` mirrors the code as it is at the pinned commit. *)
+   Definitions only.  Models the code with fixes/C06-closed-slice.diff (applied in /repo as b8558f7) and
+   fixes/C06-crossing-from-signed-distances.diff: the crossing point is computed from the two signed distances the
+   vertices were classified with, not by intersect_segment_with_plane (which is still modelled here because the
+   correspondence and one traced kernel exercise it directly). *)
 From Coq Require Import ZArith List Bool Arith.
 From PW Require Import Num Vec NpList Result.
 From PW.model Require Import M_plane M_polyline_base.
@@ -102,14 +103,9 @@ Section SliceCore.
   Definition slice_closed (l : list A) : result (list B) :=
     rbind (closed_roll ValueError l) (fun k =>
       let w := roll l k in slice_core (w ++ firstn 1 w)).
-  (* code at the pinned commit *)
-  Definition slice_closed_unfixed (l : list A) : result (list B) :=
-    rbind (closed_roll IndexError l) (fun k => slice_core (roll l k)).
 
   Definition slice_any (closed : bool) (l : list A) : result (list B) :=
     if closed && (1 <? length l)%nat then slice_closed l else slice_core l.
-  Definition slice_any_unfixed (closed : bool) (l : list A) : result (list B) :=
-    if closed && (1 <? length l)%nat then slice_closed_unfixed l else slice_core l.
 End SliceCore.
 
 Section Slice.
@@ -132,9 +128,15 @@ Section Slice.
       else if nltb O (n1 O) t then XNan
       else XPt (vadd O start (vscale O t seg)).
 
-  (* the crossing as slice_open_polyline_by_plane asks for it: from vertex a towards vertex b *)
+  (* _crossing_point(p, d_p, q, d_q) of _slice_by_plane.py (fixes/C06-crossing-from-signed-distances.diff):
+     p + d_p / (d_p - d_q) * (q - p) with the signed distances the two vertices were classified with.
+     The code only calls it with distances of strictly opposite sign; a zero denominator would give a NaN row. *)
   Definition crossing_row (pl : plane F) (a b : vec3 F) : xrow F :=
-    intersect_segment_with_plane a (vsub O b a) (pref pl) (pnormal pl).
+    let da := plane_sd O pl a in
+    let db := plane_sd O pl b in
+    let den := nsub O da db in
+    if neqb O den (n0 O) then XNan
+    else XPt (vadd O a (vscale O (ndiv O da den) (vsub O b a))).
 
   Definition slice_open (pl : plane F) (vs : list (vec3 F)) : result (list (xrow F)) :=
     slice_core (plane_sign O pl) XPt (crossing_row pl) vs.
@@ -142,6 +144,4 @@ Section Slice.
   (* Polyline.sliced_by_plane(plane).v ; the result is always an open polyline *)
   Definition sliced_by_plane (pl : plane F) (p : polyline F) : result (list (xrow F)) :=
     slice_any (plane_sign O pl) XPt (crossing_row pl) (pclosed p) (pv p).
-  Definition sliced_by_plane_unfixed (pl : plane F) (p : polyline F) : result (list (xrow F)) :=
-    slice_any_unfixed (plane_sign O pl) XPt (crossing_row pl) (pclosed p) (pv p).
 End Slice.
